@@ -17,7 +17,7 @@ Term := tuple
   ('inst', classqual, bound)                package class instance, bound = tuple[(param, frozenset)]
   ('selfattr', classqual, name)             attribute without any store
   ('global', module, name)
-  ('lambda',) ('unknown', why) ('rec', what)
+  ('lambda', source) ('unknown', why) ('rec', what)
 """
 import ast
 
@@ -301,13 +301,10 @@ class Flow:
             return fs(("op", "cmp:" + ops, tuple(T(x) for x in [e.left] + list(e.comparators))))
         if isinstance(e, ast.Subscript):
             base = T(e.value)
-            if isinstance(e.slice, ast.Slice):
-                idx = fs(("const", "slice"))
-            else:
-                idx = T(e.slice)
+            idx = T(e.slice)
             # field-sensitive read for a constant string key
             ck = [t[1] for t in idx if t[0] == "const"]
-            if len(ck) == 1 and len(idx) == 1 and isinstance(ck[0], str) and ck[0] != "slice":
+            if len(ck) == 1 and len(idx) == 1 and isinstance(ck[0], str):
                 return self._pick(base, ck[0], idx)
             return fs(("sub", base, idx))
         if isinstance(e, ast.Name):
@@ -317,11 +314,12 @@ class Flow:
         if isinstance(e, ast.Call):
             return self._call(e, fn, env, depth, mod)
         if isinstance(e, ast.Lambda):
-            return fs(("lambda",))
+            return fs(("lambda", ast.unparse(e)))
         if isinstance(e, (ast.Yield, ast.YieldFrom, ast.Await)):
             return fs(("unknown", "yield"))
         if isinstance(e, ast.Slice):
-            return fs(("const", "slice"))
+            parts = tuple(self.term(x, fn, env, depth + 1, mod) if x is not None else fs(("const", None)) for x in (e.lower, e.upper, e.step))
+            return fs(("op", "slice", parts))
         return fs(("unknown", type(e).__name__))
 
     # .................................................................. names
